@@ -688,6 +688,44 @@ fn main() {
     sp.sample_str(|| show(&tlv(GEN, b"+20001011234+5Z")));
     sp.done(true, &if thorough { format!("all substitutions of up to {max_k} positions in 12 seeds and of 4 positions in the first seed of each form") } else { format!("all substitutions of up to {max_k} positions in 12 seeds") });
 
+    // ---------------------------------------------------------------- (3b)
+    // Round 13: the alphabet above is chosen; a reader that validates digits by a nibble test, by
+    // a wrapping subtraction or per two-digit group lets through octets no alphabet names. Here
+    // every octet value is used: all 255 other values at every position, and all 65 535 other
+    // pairs at every two ADJACENT positions (one two-digit group or two neighbouring groups).
+    let sp = ctx.space("time.octets",
+        "the 12 seeds of time.substitutions: every position gets every one of the 255 other octet values; every pair of adjacent positions gets every one of the 65 535 other octet pairs (thorough: also every pair of positions two apart); each through take_from and take_opt_from against the model parser; non-trivial = every case (distinct by construction); 'still-valid-after-change' when the model accepts the changed string");
+    {
+        let mut work: Vec<(u8, &'static str, usize, usize)> = Vec::new();
+        for &(tag, s) in &seeds {
+            for p in 0..s.len() { work.push((tag, s, p, p)) }
+            for p in 0..s.len() - 1 { work.push((tag, s, p, p + 1)) }
+            if thorough { for p in 0..s.len() - 2 { work.push((tag, s, p, p + 2)) } }
+        }
+        work.par_iter().for_each(|&(tag, s, p, q)| {
+            let mut lf = Lf::new(&ctx); let mut oc = Oc::new();
+            lf.rank = if p == q { 1 } else { 2 };
+            let orig = s.as_bytes();
+            let mut cur = orig.to_vec();
+            let (mut valid, mut total) = (0u64, 0u64);
+            if p == q {
+                for a in 0..=255u8 { if a == orig[p] { continue } cur[p] = a; total += 1; if check_decode(&mut lf, &mut oc, tag, &cur) { valid += 1 } }
+            } else {
+                for a in 0..=255u8 { for b in 0..=255u8 {
+                    if a == orig[p] && b == orig[q] { continue }
+                    cur[p] = a; cur[q] = b; total += 1;
+                    if check_decode(&mut lf, &mut oc, tag, &cur) { valid += 1 }
+                }}
+            }
+            sp.evals(2 * total); sp.nontrivial(total);
+            oc.insert("still-valid-after-change", valid); oc.retain(|_, v| *v > 0);
+            sp.merge_outcomes(&oc);
+        });
+    }
+    sp.sample_str(|| show(&tlv(GEN, b"19:00101000000Z")));
+    sp.sample_str(|| show(&tlv(UTC, b"2001011234\xb05Z")));
+    sp.done(true, if thorough { "12 seeds x (every position x 255 octets + every pair of positions at distance 1 and 2 x 65 535 octet pairs)" } else { "12 seeds x (every position x 255 octets + every adjacent pair of positions x 65 535 octet pairs)" });
+
     // ---------------------------------------------------------------- (4)
     let sp = ctx.space("time.fields",
         "GeneralizedTime: years {0001,0004,0100,0400,1600,1900,1949,1950,1999,2000,2023,2024,2049,2050,2100,9999,0000} x month 00..13 x day 00..32 x (hour,minute,second) in {000000,235959,240000,236000,235960,126100}; UTCTime: all 100 two-digit years x month 00..13 x day 00..32 at 120000; each field 00..99 alone in both forms; non-trivial = every tuple (distinct by construction); both verdicts occur");
